@@ -61,7 +61,7 @@ def run_c04(prop, tier, seed, replay, coverage):
             classes[k] = classes.get(k, 0) + v
         if cases and len(samples) < 6:
             samples.extend(json.loads(c) for c in cases[:3])
-        for idx, code in results:
+        for idx, code in results.get(0, []):
             case = cases[idx] if idx < len(cases) else "{}"
             if code >= 100:
                 failing.append({"why": "%d (%s)" % (code - 100, C04_CLAUSES.get(code - 100, "?")), "case": case, "src": label})
@@ -101,6 +101,151 @@ def run_c04(prop, tier, seed, replay, coverage):
     return {"failing": failing, "divergent": divergent, "errors": errors}
 
 
+
+# ------------------------------------------------------------------------------------------
+# trace families: one case = one history (instantiate + calls) run on the real contract
+
+def _replay_one(family, prefix, eval_index, trace_json, tag):
+    d = fresh_dir("%s_%s" % (family, tag))
+    f = os.path.join(d, "in.jsonl")
+    with open(f, "w") as fh:
+        fh.write(trace_json + "\n")
+    harness([family, "replay", "--file", f, "--out", d])
+    results, errs, cases, stats = eval_dir(d, prefix)
+    return results.get(eval_index, []), errs
+
+
+def shrink_trace(family, prefix, eval_index, trace_json, budget=45):
+    """delta debugging over the steps of a failing trace; keeps candidates that still make the
+    step contract fail (code >= 100) on the implementation"""
+    try:
+        t = json.loads(trace_json)
+    except ValueError:
+        return trace_json
+    steps = t.get("steps", [])
+
+    def fails(cand_steps):
+        c = dict(t, steps=cand_steps)
+        res, errs = _replay_one(family, prefix, eval_index, json.dumps(c), "shrink")
+        return any(code % 1000 >= 100 for _, code in res)
+
+    n = 2
+    tries = 0
+    while len(steps) >= 1 and tries < budget:
+        chunk = max(1, len(steps) // n)
+        reduced = False
+        for i in range(0, len(steps), chunk):
+            cand = steps[:i] + steps[i + chunk:]
+            tries += 1
+            if tries > budget:
+                break
+            if fails(cand):
+                steps = cand
+                n = max(n - 1, 2)
+                reduced = True
+                break
+        if not reduced:
+            if chunk == 1:
+                break
+            n = min(n * 2, len(steps))
+    return json.dumps(dict(t, steps=steps))
+
+
+def run_trace_family(family, prefix, eval_index, clauses, proj_text, prop, tier, seed, replay, coverage,
+                     quick_n=320, thorough_n=4000, steps=40):
+    failing, divergent, errors = [], [], []
+    total_traces, total_steps, classes, samples = 0, 0, {}, []
+
+    def absorb(d, label):
+        nonlocal total_traces, total_steps
+        results, errs, cases, stats = eval_dir(d, prefix)
+        errors.extend(errs)
+        total_traces += len(cases)
+        total_steps += stats.get("steps", 0)
+        for k, v in stats.get("classes", {}).items():
+            classes[k] = classes.get(k, 0) + v
+        if cases and len(samples) < 2:
+            samples.append(json.loads(cases[0]))
+        for idx, code in results.get(eval_index, []):
+            case = cases[idx] if idx < len(cases) else "{}"
+            step, c = code // 1000, code % 1000
+            if c >= 100:
+                failing.append({"why": "%d (%s) at step %d" % (c - 100, clauses.get(c - 100, "?"), step),
+                                "case": case, "src": label})
+            else:
+                divergent.append({"why": "model != implementation on %s at step %d (code %d)" % (proj_text, step, c),
+                                  "case": case, "src": label})
+
+    if replay:
+        d = fresh_dir("%s_replay" % prop["id"])
+        harness([family, "replay", "--file", replay, "--out", d])
+        absorb(d, "replay")
+    else:
+        corpus = sorted(glob.glob(os.path.join(VERIF, "corpus", family, "*.jsonl")))
+        for i, cf in enumerate(corpus):
+            d = fresh_dir("%s_corpus%d" % (prop["id"], i))
+            harness([family, "replay", "--file", cf, "--out", d])
+            absorb(d, "corpus:" + os.path.basename(cf))
+        n = quick_n if tier == "quick" else thorough_n
+        d = fresh_dir("%s_gen" % prop["id"])
+        harness([family, "gen", "--seed", str(seed), "--count", str(n), "--out", d,
+                 "--shard", str(max(1, (n + 15) // 16 if tier == "quick" else 64)), "--steps", str(steps)])
+        absorb(d, "gen seed=%d" % seed)
+        if (divergent or errors) and not failing:
+            # the correspondence broke: search further for a concrete failing input
+            for extra in range(1, 4):
+                d = fresh_dir("%s_search%d" % (prop["id"], extra))
+                harness([family, "gen", "--seed", str(seed * 7919 + extra), "--count", str(n), "--out", d,
+                         "--shard", str(max(1, (n + 15) // 16)), "--steps", str(steps)])
+                absorb(d, "search seed=%d" % (seed * 7919 + extra))
+                if failing:
+                    break
+            coverage["search_after_break"] = "ran %d extra seeds" % extra
+    if failing and not replay:
+        failing[0]["case"] = shrink_trace(family, prefix, eval_index, failing[0]["case"])
+    coverage.update({
+        "evaluations": total_steps + total_traces,
+        "distinct_nontrivial": len(classes),
+        "rule": "case = one generated history (instantiate + <= %d calls, state-aware amounts, 5-6 actors, block advances) "
+                "executed on the real contract in cw-multi-test; after every call the full public state is queried; "
+                "Coq evaluates (vm_compute) the step contract on every implementation step and the model on the same "
+                "inputs; distinct = (operation kind, outcome) classes observed" % steps,
+        "samples": samples,
+        "traces_validated_against_impl": total_traces,
+        "steps_validated_against_impl": total_steps,
+        "disagreements_checked": len(divergent),
+        "distribution": classes,
+    })
+    return {"failing": failing, "divergent": divergent, "errors": errors}
+
+
+C01_CLAUSES = {1: "reported supply differs from the sum of listed balances", 2: "a holder with non-zero balance is not listed",
+               3: "supply above 2^128-1", 4: "successful call: supply/balance deltas are not those of the operation",
+               5: "failed call changed supply or balances"}
+C02_CLAUSES = {1: "a balance decreased without its holder's own call or a valid allowance draw",
+               2: "an allowance changed other than by its owner's increase/decrease or its spender's draw",
+               3: "Send/SendFrom notification missing, duplicated or with wrong initiator/amount/payload",
+               4: "failed call emitted messages"}
+C13_CLAUSES = {1: "supply increased other than by a Mint from the current minter", 2: "supply above the cap",
+               3: "minter role or cap changed other than by the current minter's UpdateMinter",
+               4: "Mint/UpdateMinter by a non-minter succeeded"}
+C19_CLAUSES = {1: "owner listing and single-allowance query disagree", 2: "spender listing has an entry the owner listing lacks or differs from",
+               3: "owner listing has an entry the spender listing lacks or differs from"}
+
+
+def mk_cw20_run(eval_index, clauses, proj):
+    def run(prop, tier, seed, replay, coverage):
+        return run_trace_family("cw20", "cw20", eval_index, clauses, proj, prop, tier, seed, replay, coverage)
+    return run
+
+
+CW20_ASSUME = [
+    "theorems are about the Gallina transliteration of contracts/cw20-base (Cw20Model.v); agreement with the Rust is "
+    "measured on the explored histories only",
+    "chain atomicity (a failed call leaves no trace) is cw-multi-test's and is written into the model's tx function",
+    "name/symbol/decimals validation, marketing info and logos are not modelled",
+]
+
 PROPS = {
     "C04": {
         "id": "C04",
@@ -122,3 +267,34 @@ PROPS = {
         ],
     },
 }
+
+def _cw20_prop(pid, idx, clauses, proj, text):
+    return {
+        "id": pid, "props_file": "Props/%s.v" % pid,
+        "coq_targets": ["Props/%s.v" % pid, "Cw20Check.v"], "exec_targets": ["Cw20Check.v"],
+        "run": mk_cw20_run(idx, clauses, proj), "assumptions": CW20_ASSUME, "level_text": text,
+        "design_ref": "DESIGN.md section 6 " + pid,
+    }
+
+
+PROPS["C01"] = _cw20_prop("C01", 0, C01_CLAUSES, "supply and listed balances",
+    "Axiom-free Coq theorems over the transliterated cw20-base handlers: for every accepted instantiation and every finite "
+    "history of calls (any senders, amounts over the whole u128 range, failures included) supply = sum of balances and "
+    "<= 2^128-1 (induction over the history); every successful call has exactly the deltas of its operation (c01_model_delta); "
+    "failed calls change nothing. Tie to the Rust: generated histories on the real contract, S_C01 evaluated in Coq on every "
+    "implementation step plus model/implementation equality of supply and balances (measured, not proved).")
+PROPS["C02"] = _cw20_prop("C02", 1, C02_CLAUSES, "balances, owner allowance table and emitted messages",
+    "Axiom-free Coq theorems: a balance decreases only by its holder's own call or by a draw on a stored, unexpired, sufficient "
+    "allowance that is lowered by exactly the amount moved; allowance entries change only by the owner's increase/decrease or "
+    "the spender's draw; over every history drawn + remaining <= granted (ghost sums, induction); Send/SendFrom notify exactly "
+    "once with the true initiator. Tie to the Rust: S_C02 evaluated in Coq on every step of generated histories on the real "
+    "contract (expiry at the call's block, decrease-vs-draw races) plus model/implementation equality (measured).")
+PROPS["C13"] = _cw20_prop("C13", 2, C13_CLAUSES, "supply and minter/cap",
+    "Axiom-free Coq theorems: supply grows only in a Mint by the registered minter; supply <= cap in every reachable state; "
+    "the role changes only by the current minter's UpdateMinter and keeps the cap; after renouncing nobody ever mints or "
+    "becomes minter again (induction over histories). Tie to the Rust as for C01 (S_C13 + equality of supply and minter).")
+PROPS["C19"] = _cw20_prop("C19", 3, C19_CLAUSES, "owner and spender allowance listings",
+    "Axiom-free Coq theorems: in every reachable state the owner-keyed and spender-keyed allowance tables mirror each other "
+    "(invariant by induction over histories), and migrate establishes the mirror from EVERY pre-0.14 table. Tie to the Rust: "
+    "on every step of generated histories (incl. a stripped legacy layout followed by migrate) the three query views are "
+    "compared in Coq (S_C19) and both listings are compared with the model's tables (measured).")
